@@ -10,9 +10,9 @@
 (* Decided here: + - * (wrapping), / % (truncating toward zero; MIN / -1   *)
 (* wraps to MIN, MIN % -1 = 0; a zero divisor is a ValueError), unary -    *)
 (* and ! (bitwise not), & | ^, << >> for counts 0..63 (>> arithmetic),     *)
-(* the six comparisons, and ** when the exact result fits 53 bits.         *)
+(* the six comparisons, and ** for exponents 0..127 (wrapping product).    *)
 (* Left undecided (the language defines nothing): shift counts outside     *)
-(* 0..63, ** with a negative exponent or a larger result.                  *)
+(* 0..63, ** with a negative or a larger exponent.                         *)
 (***************************************************************************)
 EXTENDS Integers, Sequences, FiniteSets, TLC, Json, SequencesExt
 
@@ -98,12 +98,10 @@ Apply(op, a, b) ==
       [] op = "^" -> Decided(BXor(a, b))
       [] op = "<<" -> LET k == SmallNat(b) IN IF k >= 0 /\ k <= 63 THEN Decided(Shl(a, k)) ELSE Undecided
       [] op = ">>" -> LET k == SmallNat(b) IN IF k >= 0 /\ k <= 63 THEN Decided(ShrArith(a, k)) ELSE Undecided
+      \* a non-negative exponent: the product of e factors, modulo 2^64 like every other product (exact where it fits);
+      \* SmallNat covers exponents up to 127, beyond that and for negative exponents nothing is specified
       [] op = "**" -> LET e == SmallNat(b) IN
-                      IF e < 0 \/ e > 63 THEN Undecided
-                      ELSE LET r == PowRec(a, e) IN
-                           \* exact only if no intermediate wrap can have happened: |a| small and result within 53 bits
-                           IF Fits53(r) /\ (\A j \in 12..W : Abs(a)[j] = 0) /\ (e <= 5 \/ \A j \in 3..W : Abs(a)[j] = 0)
-                           THEN Decided(r) ELSE Undecided
+                      IF e < 0 THEN Undecided ELSE Decided(PowRec(a, e))
       [] op = "<" -> DBool(SLt(a, b))
       [] op = "<=" -> DBool(SLt(a, b) \/ a = b)
       [] op = ">" -> DBool(SLt(b, a))
@@ -117,7 +115,7 @@ Apply(op, a, b) ==
 (* boundary operands *)
 Operands == { MinInt, Add(MinInt, One), Neg(FromNat(2)), MinusOne, Zero, One, FromNat(2), FromNat(3), FromNat(10), FromNat(63),
               FromNat(64), FromNat(65), FromNat(1000000007), Shl(One, 32), Sub(Shl(One, 53), One), Sub(MaxInt, One), MaxInt,
-              Neg(FromNat(1000000007)) }
+              Neg(FromNat(1000000007)), FromNat(7), FromNat(22), FromNat(40) }
 BinOps == {"+", "-", "*", "/", "%", "&", "|", "^", "<<", ">>", "**", "<", "<=", ">", ">=", "==", "!="}
 
 Init ==
